@@ -89,6 +89,9 @@ class XPathToken(Token[ta.XPathTokenType]):
         if self.label == 'axis':
             # For XPath 2.0 'attribute' multirole token ('kind test', 'axis')
             return '%s::%s' % (symbol, self[0].source)
+        elif self.label == 'kind test' and symbol == 'attribute':
+            # The other role of the multirole token: attribute(), attribute(name, type)
+            return '%s(%s)%s' % (symbol, ', '.join(t.source for t in self), self.occurrence or '')
         elif symbol == '/' or symbol == '//':
             if not self:
                 return symbol
